@@ -25,6 +25,7 @@ type LoopContract struct {
 
 // CallAssert is an assertion checked at the call sites of a named callee.
 type CallAssert struct {
+	Hits   int
 	Callee string // substring matched against the callee's name
 	Ord    int    // -1 = every matching site
 	Clause SpecClause
@@ -63,6 +64,7 @@ type Contract struct {
 	// Closure contracts: parameters of the form `apply fn(i, j) == expr` give
 	// meaning to function-typed parameters; see spec.go.
 	ReplayReq []string // extra input restrictions for the replay sweep (evaluation cost)
+	SkipSafety bool    // run-time-panic obligations are assumed, not proved (effects-only contract)
 	Nilable   []string // parameters that may be nil (default: pointer-like parameters are required non-nil)
 	Preserves []string // pointer expressions whose pointee cells are unchanged by the function
 	Uses  []string // lemma instances / axioms available in this function
@@ -338,6 +340,16 @@ func (cs *ContractSet) parseFile(fset *token.FileSet, pkgPath string, f *ast.Fil
 			} else {
 				cs.Errors = append(cs.Errors, ln.pos+": use-step outside loop")
 			}
+		case "skip-safety":
+			cur.SkipSafety = true
+		case "ghost-set":
+			// ghost-set <var> = <expr>   (callee-side: applied at every call site)
+			parts := strings.SplitN(rest, "=", 2)
+			if len(parts) != 2 {
+				cs.Errors = append(cs.Errors, ln.pos+": bad ghost-set")
+				continue
+			}
+			cur.GhostUpd = append(cur.GhostUpd, GhostUpdate{Var: strings.TrimSpace(parts[0]), Expr: strings.TrimSpace(parts[1]), Pos: ln.pos})
 		case "nilable":
 			cur.Nilable = append(cur.Nilable, strings.Fields(rest)...)
 		case "preserves":
